@@ -89,4 +89,54 @@ def rule_level_range(ctx, rule, fi, obj="self", attr="limit_level", exceptions=N
         ctx.check(ok, rule, fi.site, f"level loop ranges over 0..{obj}.{attr} inclusive",
                   f"level loop `for {var} in {t}` does not range over range({obj}.{attr} + 1)", key=t,
                   where=loc(fi, loop))
+        # a level loop that is left early does not range over all its levels either
+        bad = [e for e in early_exits(loop) if not _predicate_exit(loop, e)]
+        ctx.check(not bad, rule, fi.site, f"level loop `for {var} in {t}` visits every level (no early exit)",
+                  f"level loop `for {var} in {t}` is left early by `{norm(bad[0]) if bad else ''}` "
+                  f"(line {bad[0].lineno if bad else 0}): the levels after that point are never visited, so a finer "
+                  f"level that holds the data is ignored", key=t + ":early-exit", where=loc(fi, bad[0]) if bad else None)
     return n
+
+
+def early_exits(loop):
+    """break statements that leave `loop` and return statements inside it"""
+    def walk(stmts, inner):
+        out = []
+        for s in stmts:
+            if isinstance(s, ast.Return):
+                out.append(s)
+            elif isinstance(s, ast.Break) and not inner:
+                out.append(s)
+            elif isinstance(s, (ast.For, ast.While)):
+                out += walk(s.body, True) + walk(s.orelse, inner)
+            elif isinstance(s, ast.If):
+                out += walk(s.body, inner) + walk(s.orelse, inner)
+            elif isinstance(s, ast.With):
+                out += walk(s.body, inner)
+            elif isinstance(s, ast.Try):
+                out += walk(s.body, inner) + walk(s.orelse, inner) + walk(s.finalbody, inner)
+                for h in s.handlers:
+                    out += walk(h.body, inner)
+        return out
+    return walk(loop.body, False)
+
+
+def _predicate_exit(loop, e):
+    """exits of a loop that evaluates a for-all / exists predicate over the levels: `return <constant>`, or a
+    `break` that directly follows the assignment of a constant to a flag / mode variable"""
+    if isinstance(e, ast.Return):
+        return e.value is None or isinstance(e.value, ast.Constant)
+    for blk in _blocks(loop):
+        if e in blk:
+            i = blk.index(e)
+            prev = blk[i - 1] if i else None
+            return isinstance(prev, ast.Assign) and isinstance(prev.value, ast.Constant)
+    return False
+
+
+def _blocks(node):
+    for x in ast.walk(node):
+        for fld in ("body", "orelse", "finalbody"):
+            b = getattr(x, fld, None)
+            if isinstance(b, list) and b and isinstance(b[0], ast.stmt):
+                yield b
